@@ -337,7 +337,170 @@ func c01Scenarios(thorough bool) []*explore.Scenario {
 			Body: func(e *vsched.Exec) { c01Sequential(e, noUDP, 2) }})
 	}
 	scs = append(scs, &explore.Scenario{Name: "1conn:AuthOK-then-8-repeated-auths", Quick: explore.Bounds{P: 0}, Thorough: explore.Bounds{P: 1}, Body: c01RepeatedAuth})
+	// the NUMBER of rejected auth requests on one connection is a quantified input, not a constant:
+	// every count in 1..c01MaxRejected in one sequential run that judges the connection after each
+	// attempt, and an accepted attempt after N rejected ones (quick: N = every power of two up
+	// to the bound, and the bound; thorough: every N). Added after the independently seeded change C01-11
+	// (the flag became bit 7 of a byte whose low bits counted rejected attempts: the 128th rejected
+	// attempt on a connection carried into the flag).
+	scs = append(scs, &explore.Scenario{Name: fmt.Sprintf("1conn:rejected-auths=1..%d:Raw401+Dgram+NonAuth-after-each", c01MaxRejected), Quick: explore.Bounds{P: 0}, Thorough: explore.Bounds{P: 0},
+		Body: func(e *vsched.Exec) { c01ManyRejected(e, c01MaxRejected, false) }})
+	for _, n := range c01RejectedCounts(thorough) {
+		n := n
+		scs = append(scs, &explore.Scenario{Name: fmt.Sprintf("1conn:rejected-auths=%d-then-AuthOK", n), Quick: explore.Bounds{P: 0}, Thorough: explore.Bounds{P: 0},
+			Body: func(e *vsched.Exec) { c01ManyRejected(e, n, true) }})
+	}
 	return scs
+}
+
+// c01MaxRejected bounds the number of rejected auth requests driven on one connection.
+const c01MaxRejected = 300
+
+// c01RejectedCounts: the numbers N of rejected attempts that precede the accepted one. Thorough:
+// every N in 1..c01MaxRejected; quick: every power of two below the bound (the counts at which a
+// counter of some width wraps) and the bound itself.
+func c01RejectedCounts(thorough bool) []int {
+	var out []int
+	if thorough {
+		for n := 1; n <= c01MaxRejected; n++ {
+			out = append(out, n)
+		}
+		return out
+	}
+	for p := 1; p <= c01MaxRejected; p *= 2 {
+		out = append(out, p)
+	}
+	if out[len(out)-1] != c01MaxRejected {
+		out = append(out, c01MaxRejected)
+	}
+	return out
+}
+
+// c01ManyRejected: one connection sends n auth requests the authenticator refuses (three different
+// refused credentials in turn), one after the other. After EVERY one of them the property's clauses
+// are judged for that count: the authenticator was consulted for this very request and refused it,
+// the reply is the masquerade's (404, no Hysteria-* header), a 0x401 stream is not served, a
+// datagram is not received, nothing was dialled or logged for the connection, and a non-auth
+// request still gets the masquerade. With thenGood (the per-count probes are left out then, the
+// rejected requests are still judged) an accepted request follows: it is the authenticator's
+// verdict on it - not the history of refusals - that authenticates the connection, and from then
+// on the connection proxies. (Added after the independently seeded change C01-11: rejected
+// attempts were counted in the low bits of the byte holding the authenticated flag.)
+func c01ManyRejected(e *vsched.Exec, n int, thenGood bool) {
+	r := newRig(e, rigOpts{})
+	if r.srv == nil {
+		return
+	}
+	cl := r.dial("A")
+	addr := cl.Addr()
+	sconn := cl.Conn.Peer()
+	auths := func() (n int, last rigEvent) {
+		for _, ev := range r.Events {
+			if ev.Kind == "auth" {
+				n++
+				last = ev
+			}
+		}
+		return
+	}
+	// judge: clauses (a) and (d) for the connection, which has not been accepted so far
+	judge := func(after string) bool {
+		ok := true
+		for _, ev := range r.Events {
+			switch ev.Kind {
+			case "tcp", "udp", "checkudp", "udpwrite", "tcpreq", "udpreq":
+				e.Fail("(a) %v happened on connection A after %s and no accepted one", ev, after)
+				ok = false
+			}
+		}
+		if sconn.RecvDatagramCalls != 0 {
+			e.Fail("(d) ReceiveDatagram issued on connection A after %s and no accepted one", after)
+			ok = false
+		}
+		return ok
+	}
+	bad := []string{"bad", "wrong", "good "}
+	for i := 1; i <= n; i++ {
+		cred := bad[i%len(bad)]
+		after := fmt.Sprintf("%d rejected auth requests", i)
+		resp, err := cl.auth(cred, 0)
+		if err != nil {
+			e.Fail("rejected auth request #%d (%q) on connection A failed: %v", i, cred, err)
+			return
+		}
+		var hys []string
+		for k := range resp.Header {
+			if strings.HasPrefix(strings.ToLower(k), "hysteria-") {
+				hys = append(hys, k)
+			}
+		}
+		sort.Strings(hys)
+		if resp.Status != 404 || len(hys) != 0 {
+			e.Fail("rejected auth request #%d (%q) on connection A, which no accepted request preceded, answered with status %d and Hysteria headers %v instead of the masquerade response (status 404)", i, cred, resp.Status, hys)
+			return
+		}
+		if cnt, last := auths(); cnt != i || last.Conn != addr || last.A != cred || last.OK {
+			e.Fail("auth request #%d (%q) on connection A, which no accepted request preceded: the authenticator was consulted %d times so far, last %v", i, cred, cnt, last)
+			return
+		}
+		if thenGood {
+			continue
+		}
+		str, err := cl.rawTCP(fmt.Sprintf("t-A-after-%d:80", i))
+		if err == nil {
+			if ok, msg, rerr := protocol.ReadTCPResponse(str); rerr == nil || str.ReadTotal > 0 {
+				e.Fail("(a/d) connection A received a proxy reply (%v, %q) on a 0x401 stream after %s and no accepted one", ok, msg, after)
+			}
+			str.CancelRead(0)
+		}
+		_ = cl.dgram(uint32(i), fmt.Sprintf("u-A-after-%d:53", i), []byte("d"))
+		if resp, err := cl.request("GET", "example.com", "/auth", nil); err == nil && resp.Status != 404 {
+			e.Fail("non-auth request on connection A got status %d after %s and no accepted one", resp.Status, after)
+		}
+		e.WaitIdle()
+		if !judge(after) {
+			return
+		}
+	}
+	e.WaitIdle()
+	after := fmt.Sprintf("%d rejected auth requests", n)
+	if !judge(after) {
+		return
+	}
+	if thenGood {
+		resp, err := cl.auth("good", 0)
+		if err != nil || resp.Status != protocol.StatusAuthOK {
+			e.Fail("valid credentials after %s on connection A got %v %v", after, resp, err)
+			return
+		}
+		if cnt, last := auths(); cnt != n+1 || last.Conn != addr || !last.OK {
+			e.Fail("connection A answered 233 after %s although the authenticator was not asked about the accepted credential (consulted %d times, last %v)", after, cnt, last)
+			return
+		}
+		str, err := cl.rawTCP("t-A-accepted:80")
+		if err != nil {
+			e.Fail("(b) accepted after %s, connection A does not open a proxy stream: %v", after, err)
+		} else {
+			if ok, msg, err := protocol.ReadTCPResponse(str); err != nil || !ok {
+				e.Fail("(b) accepted after %s, a TCP request on connection A got (%v, %q, %v) instead of a Connected response", after, ok, msg, err)
+			}
+			str.CancelRead(0)
+		}
+		// and a further rejected credential neither revokes nor re-evaluates
+		if resp, err := cl.auth("bad", 0); err != nil || resp.Status != protocol.StatusAuthOK {
+			e.Fail("(b) repeated auth request on connection A, accepted after %s, got %v %v", after, resp, err)
+		}
+		if cnt, _ := auths(); cnt != n+1 {
+			e.Fail("(b) authenticator re-evaluated on authenticated connection A (accepted after %s): consulted %d times", after, cnt)
+		}
+	}
+	e.Logf("rejected=%d thenGood=%v auths=%d events=%d", n, thenGood, func() int { c, _ := auths(); return c }(), len(r.Events))
+	cl.close()
+	e.WaitIdle()
+	if !thenGood {
+		judge(after + " and the end of the connection")
+	}
+	r.shutdown(true)
 }
 
 // c01RepeatedAuth: one connection, accepted authentication, then a run of further auth requests
